@@ -28,83 +28,124 @@ Section Safe.
     split; [apply frame_refl|]. rewrite Hv. apply HK.
   Qed.
 
-  (** an event list that is neutral; the view stays *)
-  Lemma safe_emit_neutral {A} t es (K : prog A) v Q :
-    (forall e, In e es -> neutral e = true) ->
-    (forall es' e, es = es' ++ [e] -> is_resp e = true -> idle v) ->
-    safe t K v Q -> safe t (Emit es K) v Q.
-  Proof.
-    intros Hn Hr HK. act. exists a. split; [|split; [apply frame_refl|now rewrite Hv]].
-    apply inv_neutral; [exact HI|exact Hn|]. intros es' e He Hresp. rewrite Hv. eapply Hr; eauto.
-  Qed.
+  Lemma with_x_id v : with_x v (v_op v) (v_val v) = v.
+  Proof. destruct v; reflexivity. Qed.
 
   Lemma single_snoc {X} (x : X) es' e : [x] = es' ++ [e] -> e = x.
   Proof. destruct es' as [|y es'']; cbn; intros H; inversion H; auto. destruct es''; discriminate. Qed.
 
-  (** one client event that is not a response *)
+  (** one client event that neither starts nor ends an operation (attach, scan, outoffuel ...): the view stays *)
   Lemma safe_emit1 {A} t n args (K : prog A) v Q :
-    neutral (EvCli n args) = true -> is_resp (EvCli n args) = false ->
+    neutral (EvCli n args) = true -> inert (EvCli n args) = true ->
     safe t K v Q -> safe t (Emit [EvCli n args] K) v Q.
   Proof.
-    intros Hn Hr HK. apply safe_emit_neutral; [intros e [<-|[]]; exact Hn| |exact HK].
-    intros es' e He Hresp. apply single_snoc in He. subst e. congruence.
+    intros Hn Hi HK. act. exists a. split; [|split; [apply frame_refl|now rewrite Hv]].
+    apply inv_neutral; [exact HI|intros e [<-|[]]; exact Hn| |intros e [<-|[]]; now apply inert_xplain|right; intros e [<-|[]]; exact Hi].
+    intros es' e He Hresp. apply single_snoc in He. subst e. exfalso.
+    unfold inert in Hi. apply andb_true_iff in Hi. destruct Hi as (_ & Hi). unfold is_resp in Hresp. rewrite Hresp in Hi. discriminate.
   Qed.
 
-  (** one response event: the view must be idle *)
-  Lemma safe_emit_resp {A} t n args (K : prog A) v Q :
-    neutral (EvCli n args) = true -> idle v ->
-    safe t K v Q -> safe t (Emit [EvCli n args] K) v Q.
+  (** the event that starts an operation on the guards / a publish / a detach *)
+  Lemma safe_emit_open {A} t n args (K : prog A) v Q :
+    neutral (EvCli n args) = true -> xplain (EvCli n args) = true -> is_opstart (EvCli n args) = true ->
+    is_resp (EvCli n args) = false ->
+    safe t K (with_x v (Some (EvCli n args)) (v_val v)) Q -> safe t (Emit [EvCli n args] K) v Q.
   Proof.
-    intros Hn Hi HK. apply safe_emit_neutral; [intros e [<-|[]]; exact Hn| |exact HK].
-    intros; exact Hi.
+    intros Hn Hx Ho Hr HK. act. exists (upd_view a t (with_x (view a t) (Some (EvCli n args)) (v_val (view a t)))).
+    split; [now apply inv_emit_open|]. split; [apply frame_upd_view|]. rewrite view_upd_same, Hv. exact HK.
+  Qed.
+
+  (** one response event: the view must be idle; no operation is open afterwards *)
+  Lemma safe_emit_resp {A} t n args (K : prog A) v Q :
+    neutral (EvCli n args) = true -> xplain (EvCli n args) = true -> idle v ->
+    safe t K (with_x v None (v_val v)) Q -> safe t (Emit [EvCli n args] K) v Q.
+  Proof.
+    intros Hn Hx Hi HK. act. exists (upd_view a t (with_x (view a t) None (v_val (view a t)))).
+    split; [|split; [apply frame_upd_view|rewrite view_upd_same, Hv; exact HK]].
+    apply inv_emit_close; [exact HI|intros e [<-|[]]; exact Hn|intros e [<-|[]]; exact Hx|]. intros; rewrite Hv; exact Hi.
   Qed.
 
   (** ** guards *)
-  Lemma safe_st_slot {A} t r j p (K : V -> prog A) v Q :
-    v_rec v = Some r -> j < cH c -> v_clr v = 0 ->
-    safe t (K VU) v Q -> safe t (Act (a_st_slot r j p) K) v Q.
+  Lemma safe_st_slot {A} t r j p e0 (K : V -> prog A) v Q :
+    v_rec v = Some r -> j < cH c -> v_clr v = 0 -> v_op v = Some e0 -> rel_b j e0 = true ->
+    safe t (K VU) (slot_view v 0 r j p) Q -> safe t (Act (a_st_slot r j p) K) v Q.
   Proof.
-    intros Hr Hj Hk HK. act. cbn [a_st_slot fst snd].
-    exists (upd_view a t (with_clr (view a t) 0)). split; [|split; [apply frame_upd_view|]].
-    - apply (inv_st_slot c g a tr t r j p 0); [exact HI|now rewrite Hv|exact Hj|intros i Hi; lia].
-    - rewrite view_upd_same, Hv, with_clr_id by exact Hk. exact HK.
+    intros Hr Hj Hk Ho Hrel HK. act. cbn [a_st_slot fst snd].
+    exists (upd_view a t (slot_view (view a t) 0 r j p)). split; [|split; [apply frame_upd_view|]].
+    - apply (inv_st_slot c g a tr t r j p 0 HI) with (e0 := e0); [now rewrite Hv|exact Hj|intros i Hi; lia|now rewrite Hv|exact Hrel].
+    - rewrite view_upd_same, Hv. exact HK.
   Qed.
 
   Lemma safe_faa_sync {A} t r (K : V -> prog A) v Q : safe t (K VU) v Q -> safe t (Act (a_faa_sync r) K) v Q.
   Proof. intros HK. eapply (safe_acc t _ K v Q KFaa (obj_sync r) true (fun _ => VU)); auto; discriminate. Qed.
 
   Lemma safe_ld_src {A} t k (K : V -> prog A) v Q : (forall z, safe t (K (VZ z)) v Q) -> safe t (Act (a_ld_src k) K) v Q.
-  Proof. intros HK. eapply (safe_acc t _ K v Q KLd (obj_src k) true (fun g => VZ (g_srcs g k))); auto; discriminate. Qed.
+  Proof.
+    intros HK. act. cbn [a_ld_src fst snd]. exists (upd_view a t (with_x (view a t) (v_op (view a t)) (v_val (view a t)))).
+    split; [apply (inv_ld_src c g a tr t k); [exact HI|now left]|]. split; [apply frame_upd_view|].
+    rewrite view_upd_same, with_x_id, Hv. apply HK.
+  Qed.
 
   Lemma safe_ld_slot {A} t r j (K : V -> prog A) v Q : (forall z, safe t (K (VZ z)) v Q) -> safe t (Act (a_ld_slot r j) K) v Q.
   Proof. intros HK. eapply (safe_acc t _ K v Q KLd (obj_slot r j) true (fun g => VZ (gslot g r j))); auto; discriminate. Qed.
 
-  Lemma safe_assign t r j p v (Q : unit -> lview -> Prop) :
-    v_rec v = Some r -> j < cH c -> v_clr v = 0 -> Q tt v -> safe t (assign r j p) v Q.
-  Proof. intros. unfold assign. apply safe_st_slot; auto. apply safe_faa_sync. exact H2. Qed.
+  Lemma slot_view_twice v k r j p k' r' j' p' : slot_view (slot_view v k r j p) k' r' j' p' = slot_view v k' r' j' p'.
+  Proof. reflexivity. Qed.
 
-  Lemma safe_clear t r j v (Q : unit -> lview -> Prop) :
-    v_rec v = Some r -> j < cH c -> v_clr v = 0 -> Q tt v -> safe t (clear r j) v Q.
-  Proof. intros. unfold clear. apply safe_st_slot; auto. Qed.
+  (** views that differ in the record of the last slot store only *)
+  Definition val_any (v : lview) (Q : lview -> Prop) : Prop := forall val, Q (with_x v (v_op v) val).
 
-  Lemma safe_protect_loop t r j k v (Q : option Z -> lview -> Prop) :
-    v_rec v = Some r -> j < cH c -> v_clr v = 0 -> (forall o, Q o v) ->
-    forall fuel pcur, safe t (protect_loop fuel r j k pcur) v Q.
+  Lemma safe_assign t r j p e0 v (Q : unit -> lview -> Prop) :
+    v_rec v = Some r -> j < cH c -> v_clr v = 0 -> v_op v = Some e0 -> rel_b j e0 = true ->
+    Q tt (slot_view v 0 r j p) -> safe t (assign r j p) v Q.
+  Proof. intros. unfold assign. eapply safe_st_slot; eauto. apply safe_faa_sync. assumption. Qed.
+
+  Lemma safe_clear t r j e0 v (Q : unit -> lview -> Prop) :
+    v_rec v = Some r -> j < cH c -> v_clr v = 0 -> v_op v = Some e0 -> rel_b j e0 = true ->
+    Q tt (slot_view v 0 r j 0%Z) -> safe t (clear r j) v Q.
+  Proof. intros. unfold clear. eapply safe_st_slot; eauto. Qed.
+
+  Definition valid_view (v : lview) (r j : nat) (p : Z) (k : nat) : lview :=
+    mkV (v_rec v) (v_held v) 0 (v_scan v) (v_cl v) (v_seen v) (v_op v) (Some (r, j, p, Some k)).
+
+  Lemma safe_protect_loop t r j k e0 v (Q : option Z -> lview -> Prop) :
+    v_rec v = Some r -> j < cH c -> v_clr v = 0 -> v_op v = Some e0 -> rel_b j e0 = true ->
+    (forall p, Q (Some p) (valid_view v r j p k)) -> (forall val, Q None (with_x (with_clr v 0) (v_op v) val)) ->
+    forall fuel pcur val, safe t (protect_loop fuel r j k pcur) (with_x (with_clr v 0) (v_op v) val) Q.
   Proof.
-    intros Hr Hj Hk HQ. induction fuel as [|fuel IH]; intros pcur; cbn [protect_loop]; [apply HQ|].
-    apply safe_st_slot; auto. apply safe_faa_sync. apply safe_ld_src. intros z. cbn [vZ].
-    destruct (Z.eqb z pcur); [apply HQ|apply IH].
+    intros Hr Hj Hk Ho Hrel HQ1 HQ2. induction fuel as [|fuel IH]; intros pcur val; cbn [protect_loop]; [apply HQ2|].
+    eapply safe_st_slot; eauto. apply safe_faa_sync.
+    act. cbn [a_ld_src fst snd vZ].
+    set (z := g_srcs g k).
+    exists (upd_view a t (with_x (view a t) (v_op (view a t))
+              (if Z.eqb z pcur then Some (r, j, z, Some k) else v_val (view a t)))).
+    split.
+    { apply (inv_ld_src c g a tr t k); [exact HI|]. destruct (Z.eqb_spec z pcur) as [E|E]; [|now left].
+      right. exists r, j, None. rewrite Hv. cbn. fold z. rewrite E. auto. }
+    split; [apply frame_upd_view|]. rewrite view_upd_same, Hv.
+    destruct (Z.eqb_spec z pcur) as [E|E].
+    - cbn [Conc.safe]. rewrite E. apply HQ1.
+    - apply (IH z (Some (r, j, pcur, None))).
   Qed.
 
-  Lemma safe_protect t r j k v (Q : option Z -> lview -> Prop) :
-    v_rec v = Some r -> j < cH c -> v_clr v = 0 -> (forall o, Q o v) -> safe t (protect c r j k) v Q.
-  Proof. intros. unfold protect. apply safe_ld_src. intros z. now apply safe_protect_loop. Qed.
+  Lemma with_x_clr_id v : v_clr v = 0 -> with_x (with_clr v 0) (v_op v) (v_val v) = v.
+  Proof. destruct v; cbn; intros ->; reflexivity. Qed.
 
-  Lemma safe_copy t r j i v (Q : Z -> lview -> Prop) :
-    v_rec v = Some r -> j < cH c -> v_clr v = 0 -> (forall z, Q z v) -> safe t (copy r j i) v Q.
+  Lemma safe_protect t r j k e0 v (Q : option Z -> lview -> Prop) :
+    v_rec v = Some r -> j < cH c -> v_clr v = 0 -> v_op v = Some e0 -> rel_b j e0 = true ->
+    (forall p, Q (Some p) (valid_view v r j p k)) -> (forall val, Q None (with_x (with_clr v 0) (v_op v) val)) ->
+    safe t (protect c r j k) v Q.
+  Proof.
+    intros Hr Hj Hk Ho Hrel HQ1 HQ2. unfold protect. apply safe_ld_src. intros z. cbn [vZ].
+    rewrite <- (with_x_clr_id v Hk). eapply safe_protect_loop; eauto.
+  Qed.
+
+  Lemma safe_copy t r j i e0 v (Q : Z -> lview -> Prop) :
+    v_rec v = Some r -> j < cH c -> v_clr v = 0 -> v_op v = Some e0 -> rel_b j e0 = true ->
+    (forall z, Q z (slot_view v 0 r j z)) -> safe t (copy r j i) v Q.
   Proof.
     intros. unfold copy. apply safe_ld_slot. intros z. cbn [vZ]. apply Conc.safe_bind.
-    apply safe_assign; auto. cbn. auto.
+    eapply safe_assign; eauto. cbn. auto.
   Qed.
 
   (** ** retired_array::push after the retire was announced *)
@@ -494,15 +535,22 @@ Section Safe.
         intros seen1 Hi1. apply Hloop. exact Hi1.
   Qed.
 
-  Definition base (o : option nat) (k : nat) (seen : list nat) : lview := mkV o [] k None [] seen.
+  Definition xval := option (nat * nat * Z * option nat).
+  Definition base (o : option nat) (k : nat) (seen : list nat) (op : option ev) (val : xval) : lview :=
+    mkV o [] k None [] seen op val.
+
+  Definition fresh_view (r : nat) (seen : list nat) (op : option ev) (val : xval) : lview := mkV None [r] 0 None [] seen op val.
+
+  Ltac simplv := unfold att_view, det_view, slot_view, with_held, with_seen, with_cl, with_x, with_rec, with_clr, fresh_view, base;
+    cbn [v_held v_rec v_clr v_scan v_cl v_seen v_op v_val].
 
   Lemma remove_single h : remove Nat.eq_dec h [h] = [].
   Proof. cbn. destruct (Nat.eq_dec h h); [reflexivity|congruence]. Qed.
 
-  Lemma safe_help_loop t r k (Q : unit -> lview -> Prop) :
+  Lemma safe_help_loop t r k op val (Q : unit -> lview -> Prop) :
     forall l seen, incl l seen ->
-      (forall seen', incl seen seen' -> Q tt (base (Some r) k seen')) ->
-      safe t (help_loop c r l) (base (Some r) k seen) Q.
+      (forall seen', incl seen seen' -> Q tt (base (Some r) k seen' op val)) ->
+      safe t (help_loop c r l) (base (Some r) k seen op val) Q.
   Proof.
     induction l as [|h l' IH]; intros seen Hincl HQ; cbn [help_loop].
     - apply HQ. apply incl_refl.
@@ -519,145 +567,162 @@ Section Safe.
       exists (upd_view a t (with_held (view a t) (h :: v_held (view a t)))).
       split.
       { apply inv_acquire_held; [apply inv_acc; [exact HI|discriminate]|apply not_resp_after_acc; discriminate|exact Hing|exact Eo]. }
-      split; [apply frame_upd_view|]. rewrite view_upd_same, Hv. cbn [with_held base v_held v_rec v_clr v_scan v_cl v_seen].
+      split; [apply frame_upd_view|]. rewrite view_upd_same, Hv. simplv.
       clear g a tr HI Hv Eo Hing g0 g1.
-      (* current_.load() of the claimed record *)
       act. cbn [a_ld_cur fst snd vL]. set (srcl := r_ret (get_rec g h)).
       exists (set_claims a t (ClAct h srcl srcl :: v_cl (view a t)) (set_eff (a_eff a) h (Some srcl))).
       split.
       { apply inv_ld_cur_fresh; [exact HI|rewrite Hv; right; now left|rewrite Hv; intros cl []]. }
-      split; [apply frame_set_claims|]. rewrite view_set_claims_same, Hv. cbn [with_cl v_held v_rec v_clr v_scan v_cl v_seen].
+      split; [apply frame_set_claims|]. rewrite view_set_claims_same, Hv. simplv.
       clearbody srcl. clear g a tr HI Hv.
       apply Conc.safe_bind.
       eapply (safe_move_loop t r h srcl []); [exact Hhr|intros cl []|reflexivity|reflexivity|reflexivity|].
-      intros seen1 Hi1. cbn [with_seen with_cl v_held v_rec v_clr v_scan v_cl v_seen] in *.
-      (* interthread_clear *)
+      intros seen1 Hi1. simplv.
       act. cbn [a_xchg_cur fst snd].
       exists (set_claims a t [] (set_eff (a_eff a) h None)).
       split; [eapply inv_st_cur; [exact HI|rewrite Hv; reflexivity|discriminate|]|].
       { intros (_ & Hhp & _). cbn. lia. }
       split; [apply frame_set_claims|].
-      rewrite view_set_claims_same, Hv. cbn [with_cl v_held v_rec v_clr v_scan v_cl v_seen]. clear g a tr HI Hv.
-      (* free_.store( true ) *)
+      rewrite view_set_claims_same, Hv. simplv. clear g a tr HI Hv.
       act. cbn [a_st_free fst snd]. exists a.
       split; [apply inv_st_free; apply inv_acc; [exact HI|discriminate]|]. split; [apply frame_refl|]. rewrite Hv. clear g a tr HI Hv.
-      (* owner_rec_.store( nullptr ) *)
       act. cbn [a_st_owner fst snd].
       assert (Hing : In h (g_list g)) by (apply (i_seen _ _ _ _ HI t h); rewrite Hv; cbn; now apply Hi1).
       exists (upd_view a t (with_held (view a t) (remove Nat.eq_dec h (v_held (view a t))))).
       split.
       { apply inv_release_held; [apply inv_acc; [exact HI|discriminate]|rewrite Hv; now left|exact Hing|rewrite Hv; intros cl []]. }
-      split; [apply frame_upd_view|]. rewrite view_upd_same, Hv. cbn [with_held v_held v_rec v_clr v_scan v_cl v_seen].
+      split; [apply frame_upd_view|]. rewrite view_upd_same, Hv. simplv.
       rewrite remove_single. clear g a tr HI Hv Hing.
       apply Conc.safe_bind. apply safe_scan; [reflexivity|reflexivity|intros cl []|].
-      intros seen2 Hi2. cbn [with_seen v_held v_rec v_clr v_scan v_cl v_seen] in *.
+      intros seen2 Hi2. simplv.
       apply IH.
       + eapply incl_tran; [exact Hl'|]. eapply incl_tran; eauto.
       + intros seen' Hi'. apply HQ. eapply incl_tran; [exact Hi1|]. eapply incl_tran; eauto.
   Qed.
 
-  Lemma safe_help_scan t r k seen (Q : unit -> lview -> Prop) :
-    (forall seen', Q tt (base (Some r) k seen')) -> safe t (help_scan c r) (base (Some r) k seen) Q.
+  Lemma safe_help_scan t r k seen op val (Q : unit -> lview -> Prop) :
+    (forall seen', Q tt (base (Some r) k seen' op val)) -> safe t (help_scan c r) (base (Some r) k seen op val) Q.
   Proof.
     intros HQ. unfold help_scan. act. cbn [a_ld_head fst snd vR].
     exists (upd_view a t (with_seen (view a t) (g_list g))).
     split; [apply inv_set_seen; apply inv_acc; [exact HI|discriminate]|]. split; [apply frame_upd_view|].
-    rewrite view_upd_same, Hv. cbn [with_seen base v_held v_rec v_clr v_scan v_cl v_seen].
-    apply (safe_help_loop t r k Q (g_list g) (g_list g)); [apply incl_refl|]. intros seen' _. apply HQ.
+    rewrite view_upd_same, Hv. simplv.
+    apply (safe_help_loop t r k op val Q (g_list g) (g_list g)); [apply incl_refl|]. intros seen' _. apply HQ.
   Qed.
 
   (** ** free_thread_data *)
+  Definition ev_detach : ev := EvCli "detach" [].
+
   Lemma safe_clear_loop t r seen (Q : unit -> lview -> Prop) :
-    Q tt (base (Some r) (cH c) seen) ->
-    forall n k, k + n = cH c -> safe t (clear_loop r (seq k n)) (base (Some r) k seen) Q.
+    (forall val', Q tt (base (Some r) (cH c) seen (Some ev_detach) val')) ->
+    forall n k val, k + n = cH c -> safe t (clear_loop r (seq k n)) (base (Some r) k seen (Some ev_detach) val) Q.
   Proof.
-    intros HQ. induction n as [|n IH]; intros k Hk; cbn [seq clear_loop].
-    - replace k with (cH c) by lia. exact HQ.
+    intros HQ. induction n as [|n IH]; intros k val Hk; cbn [seq clear_loop].
+    - replace k with (cH c) by lia. apply HQ.
     - act. cbn [a_st_slot fst snd].
-      exists (upd_view a t (with_clr (view a t) (S k))). split; [|split; [apply frame_upd_view|]].
-      + apply (inv_st_slot c g a tr t r k 0%Z (S k)); [exact HI|now rewrite Hv|lia|].
+      exists (upd_view a t (slot_view (view a t) (S k) r k 0%Z)). split; [|split; [apply frame_upd_view|]].
+      + apply (inv_st_slot c g a tr t r k 0%Z (S k) HI) with (e0 := ev_detach); [now rewrite Hv|lia| |now rewrite Hv|reflexivity].
         intros i Hi. rewrite Hv. cbn. destruct (Nat.eq_dec i k); [right; auto|left; lia].
-      + rewrite view_upd_same, Hv. cbn [with_clr base v_held v_rec v_clr v_scan v_cl v_seen]. apply IH. lia.
+      + rewrite view_upd_same, Hv. simplv. apply IH. lia.
   Qed.
 
-  Lemma safe_free_thread_data t r seen (Q : unit -> lview -> Prop) :
-    (forall seen', Q tt (base None 0 seen')) ->
-    safe t (free_thread_data c r true) (base (Some r) 0 seen) Q.
+  Lemma safe_free_thread_data t r seen val (Q : unit -> lview -> Prop) :
+    (forall seen', Q tt (base None 0 seen' (Some ev_detach) None)) ->
+    safe t (free_thread_data c r true) (base (Some r) 0 seen (Some ev_detach) val) Q.
   Proof.
     intros HQ. unfold free_thread_data. apply Conc.safe_bind.
-    apply (safe_clear_loop t r seen); [|lia].
+    apply (safe_clear_loop t r seen); [|lia]. intros val1.
     apply Conc.safe_bind. apply safe_scan; [reflexivity|reflexivity|intros cl []|].
-    intros seen1 _. cbn [with_seen base v_held v_rec v_clr v_scan v_cl v_seen].
+    intros seen1 _. simplv.
     apply Conc.safe_bind. apply (safe_help_scan t r (cH c) seen1). intros seen2.
+    (* g_det *)
+    act. exists (upd_view a t (det_view (view a t) r)).
+    split; [apply inv_emit_det; [exact HI|now rewrite Hv|rewrite Hv; cbn; lia|now rewrite Hv]|]. split; [apply frame_upd_view|].
+    rewrite view_upd_same, Hv. simplv. clear g a tr HI Hv.
+    (* owner_rec_.store( nullptr ) *)
     act. cbn [a_st_owner fst snd].
-    exists (upd_view a t (with_rec (view a t) None)).
+    assert (Hing : In r (g_list g)) by (apply (i_seen _ _ _ _ HI t r); rewrite Hv; cbn; now left).
+    exists (upd_view a t (with_held (view a t) (remove Nat.eq_dec r (v_held (view a t))))).
     split.
-    { apply inv_release_rec; [apply inv_acc; [exact HI|discriminate]|now rewrite Hv|rewrite Hv; cbn; lia|rewrite Hv; intros cl []]. }
-    split; [apply frame_upd_view|]. rewrite view_upd_same, Hv. apply HQ.
+    { apply inv_release_held; [apply inv_acc; [exact HI|discriminate]|rewrite Hv; now left|exact Hing|rewrite Hv; intros cl []]. }
+    split; [apply frame_upd_view|]. rewrite view_upd_same, Hv. simplv.
+    rewrite remove_single. apply HQ.
   Qed.
 
   (** ** alloc_thread_data *)
-  Lemma safe_reuse_loop t (Q : option nat -> lview -> Prop) :
+  Lemma safe_reuse_loop t op val (Q : option nat -> lview -> Prop) :
     forall l seen, incl l seen ->
-      (forall r, Q (Some r) (base (Some r) 0 seen)) -> Q None (base None 0 seen) ->
-      safe t (reuse_loop l) (base None 0 seen) Q.
+      (forall r, Q (Some r) (base (Some r) 0 seen op None)) -> Q None (base None 0 seen op val) ->
+      safe t (reuse_loop l) (base None 0 seen op val) Q.
   Proof.
     induction l as [|r l' IH]; intros seen Hincl HQ1 HQ2; cbn [reuse_loop]; [exact HQ2|].
     assert (Hl' : incl l' seen) by (intros x Hx; apply Hincl; now right).
+    assert (Hr : In r seen) by (apply Hincl; now left).
     act. unfold a_cas_owner. destruct (r_owner (get_rec g r)) eqn:Eo; cbn [fst snd vB].
     - exists a. split; [apply inv_acc; [exact HI|discriminate]|]. split; [apply frame_refl|]. rewrite Hv. now apply IH.
-    - assert (Hing : In r (g_list g)) by (apply (i_seen _ _ _ _ HI t r); rewrite Hv; apply Hincl; now left).
-      exists (upd_view a t (with_rec (view a t) (Some r))). split.
-      { apply inv_acquire_rec; [apply inv_acc; [exact HI|discriminate]|now rewrite Hv|now rewrite Hv|exact Hing|exact Eo]. }
-      split; [apply frame_upd_view|]. rewrite view_upd_same, Hv. cbn [with_rec base v_held v_rec v_clr v_scan v_cl v_seen].
-      clear g a tr HI Hv Eo Hing. act. cbn [a_st_free fst snd]. exists a.
+    - assert (Hing : In r (g_list g)) by (apply (i_seen _ _ _ _ HI t r); now rewrite Hv).
+      exists (upd_view a t (with_held (view a t) (r :: v_held (view a t)))). split.
+      { apply inv_acquire_held; [apply inv_acc; [exact HI|discriminate]|apply not_resp_after_acc; discriminate|exact Hing|exact Eo]. }
+      split; [apply frame_upd_view|]. rewrite view_upd_same, Hv. simplv.
+      clear g a tr HI Hv Eo Hing.
+      (* g_att *)
+      act. exists (upd_view a t (att_view (view a t) r)).
+      split; [apply inv_emit_att; [exact HI|now rewrite Hv|now rewrite Hv|rewrite Hv; now left|]|].
+      { apply (i_seen _ _ _ _ HI t r). now rewrite Hv. }
+      split; [apply frame_upd_view|]. rewrite view_upd_same, Hv. simplv.
+      rewrite remove_single. clear g a tr HI Hv.
+      act. cbn [a_st_free fst snd]. exists a.
       split; [apply inv_st_free; apply inv_acc; [exact HI|discriminate]|]. split; [apply frame_refl|]. rewrite Hv. apply HQ1.
   Qed.
 
-  Definition fresh_view (r : nat) (seen : list nat) : lview := mkV None [r] 0 None [] seen.
 
-  Lemma safe_push_loop t r seen (Q : bool -> lview -> Prop) :
-    Q true (base (Some r) 0 seen) -> Q false (fresh_view r seen) ->
-    forall fuel exp, safe t (push_loop fuel r exp) (fresh_view r seen) Q.
+  Lemma safe_push_loop t r seen op val (Q : bool -> lview -> Prop) :
+    (forall seen', Q true (base (Some r) 0 seen' op None)) -> Q false (fresh_view r seen op val) ->
+    forall fuel exp, safe t (push_loop fuel r exp) (fresh_view r seen op val) Q.
   Proof.
     intros HQ1 HQ2. induction fuel as [|fuel IH]; intros exp; cbn [push_loop]; [exact HQ2|].
     act. unfold a_cas_head. destruct (same_head exp (g_list g)); cbn [fst snd vB vR].
-    - exists (upd_view a t (pushed_view (view a t) r)). split.
-      { apply (inv_push c g a _ t r); [apply inv_acc; [exact HI|discriminate]|now rewrite Hv|now rewrite Hv|rewrite Hv; now left]. }
-      split; [apply frame_upd_view|]. rewrite view_upd_same, Hv. unfold pushed_view, fresh_view. cbn [v_held v_rec v_clr v_scan v_cl v_seen].
-      rewrite remove_single. exact HQ1.
+    - exists (upd_view a t (with_seen (view a t) (r :: g_list g))). split.
+      { apply (inv_set_seen c (push_rec g r) a _ t). apply inv_push_held with (t := t); [apply inv_acc; [exact HI|discriminate]|rewrite Hv; now left]. }
+      split; [apply frame_upd_view|]. rewrite view_upd_same, Hv. simplv.
+      clear HI Hv. set (seen1 := r :: g_list g). assert (Hr1 : In r seen1) by now left. clearbody seen1. clear g a tr.
+      act. exists (upd_view a t (att_view (view a t) r)).
+      split; [apply inv_emit_att; [exact HI|now rewrite Hv|now rewrite Hv|rewrite Hv; now left|]|].
+      { apply (i_seen _ _ _ _ HI t r). now rewrite Hv. }
+      split; [apply frame_upd_view|]. rewrite view_upd_same, Hv. simplv.
+      rewrite remove_single. apply HQ1.
     - exists a. split; [apply inv_acc; [exact HI|discriminate]|]. split; [apply frame_refl|]. rewrite Hv. apply IH.
   Qed.
 
-  Lemma safe_alloc t seen (Q : option nat -> lview -> Prop) :
-    (forall r seen', Q (Some r) (base (Some r) 0 seen')) ->
-    (forall r seen', Q None (fresh_view r seen')) ->
-    safe t (alloc_thread_data c) (base None 0 seen) Q.
+  Lemma safe_alloc t seen op val (Q : option nat -> lview -> Prop) :
+    (forall r seen', Q (Some r) (base (Some r) 0 seen' op None)) ->
+    (forall r seen', Q None (fresh_view r seen' op val)) ->
+    safe t (alloc_thread_data c) (base None 0 seen op val) Q.
   Proof.
     intros HQ1 HQ2. unfold alloc_thread_data. act. cbn [a_ld_head fst snd vR].
     exists (upd_view a t (with_seen (view a t) (g_list g))).
     split; [apply inv_set_seen; apply inv_acc; [exact HI|discriminate]|]. split; [apply frame_upd_view|].
-    rewrite view_upd_same, Hv. cbn [with_seen base v_held v_rec v_clr v_scan v_cl v_seen].
+    rewrite view_upd_same, Hv. simplv.
     set (seen1 := g_list g). clearbody seen1. clear g a tr HI Hv.
-    apply Conc.safe_bind. apply (safe_reuse_loop t _ seen1 seen1); [apply incl_refl| |].
+    apply Conc.safe_bind. apply (safe_reuse_loop t op val _ seen1 seen1); [apply incl_refl| |].
     - intros r. cbn [Conc.safe]. apply HQ1.
     - act. cbn [a_new_rec fst snd vN]. set (r := List.length (g_recs g)).
       exists (upd_view a t (with_held (view a t) (r :: v_held (view a t)))). split.
       { apply (inv_new_rec c g a _ t); [apply inv_acc; [exact HI|discriminate]|apply not_resp_after_acc; discriminate]. }
-      split; [apply frame_upd_view|]. rewrite view_upd_same, Hv. cbn [with_held base v_held v_rec v_clr v_scan v_cl v_seen].
+      split; [apply frame_upd_view|]. rewrite view_upd_same, Hv. simplv.
       clearbody r. clear g a tr HI Hv.
       act. cbn [a_ld_head fst snd vR].
       exists (upd_view a t (with_seen (view a t) (g_list g))).
       split; [apply inv_set_seen; apply inv_acc; [exact HI|discriminate]|]. split; [apply frame_upd_view|].
-      rewrite view_upd_same, Hv. cbn [with_seen v_held v_rec v_clr v_scan v_cl v_seen].
-      apply Conc.safe_bind. apply (safe_push_loop t r (g_list g)); cbn [Conc.safe]; [apply HQ1|apply HQ2].
+      rewrite view_upd_same, Hv. simplv.
+      apply Conc.safe_bind. apply (safe_push_loop t r (g_list g) op val); cbn [Conc.safe]; [intros; apply HQ1|apply HQ2].
   Qed.
 
   (** ** client operations *)
   Definition op_post (x : option local) (l' : lview) : Prop :=
-    match x with Some lo' => exists seen', l' = base (l_rec lo') 0 seen' | None => True end.
+    match x with Some lo' => exists seen' val', l' = base (l_rec lo') 0 seen' None val' | None => True end.
 
-  Lemma idle_base o k seen : idle (base o k seen).
+  Lemma idle_base o k seen op val : idle (base o k seen op val).
   Proof. split; reflexivity. Qed.
 
   Lemma op_valid_slot o : op_valid c o = true ->
@@ -666,79 +731,100 @@ Section Safe.
     destruct o; cbn; intros H; auto; try (apply andb_true_iff in H; destruct H as (H & _)); now apply Nat.ltb_lt.
   Qed.
 
-  Ltac resp := apply safe_emit_resp; [reflexivity|apply idle_base|].
-  Ltac emit1 := apply safe_emit1; [reflexivity|reflexivity|].
+  Lemma rel_b_same n j rest :
+    existsb (String.eqb n) ["protect"; "assign"; "clear"; "copy"] = true -> rel_b j (EvCli n (zn j :: rest)) = true.
+  Proof. intros H. unfold rel_b. rewrite H, Z.eqb_refl. reflexivity. Qed.
 
-  Lemma safe_run_op t lo o seen : safe t (run_op c lo o) (base (l_rec lo) 0 seen) op_post.
+  Lemma safe_emit_protected {A} t r j p k (K : prog A) v Q :
+    v_val v = Some (r, j, p, Some k) -> idle v ->
+    safe t K (with_x v None (v_val v)) Q -> safe t (Emit [EvCli "protected" [zn j; p]] K) v Q.
   Proof.
-    assert (Hskip : safe t (Emit [cli "skip" []] (Ret (Some lo))) (base (l_rec lo) 0 seen) op_post).
-    { resp. cbn. eauto. }
+    intros Hval Hi HK. act. exists (upd_view a t (with_x (view a t) None (v_val (view a t)))).
+    split; [eapply inv_emit_protected; [exact HI|rewrite Hv; exact Hval|now rewrite Hv]|].
+    split; [apply frame_upd_view|]. rewrite view_upd_same, Hv. exact HK.
+  Qed.
+
+  Ltac resp := apply safe_emit_resp; [reflexivity|reflexivity|apply idle_base|].
+  Ltac emit1 := apply safe_emit1; [reflexivity|reflexivity|].
+  Ltac opn := apply safe_emit_open; [reflexivity|reflexivity|reflexivity|reflexivity|].
+  Ltac done := cbn; eexists _, _; reflexivity.
+
+  Lemma safe_run_op t lo o seen val : safe t (run_op c lo o) (base (l_rec lo) 0 seen None val) op_post.
+  Proof.
+    assert (Hskip : safe t (Emit [cli "skip" []] (Ret (Some lo))) (base (l_rec lo) 0 seen None val) op_post).
+    { resp. done. }
     destruct o; cbn [run_op].
     - (* attach *) emit1. destruct (l_rec lo) as [r|] eqn:Er.
-      + resp. cbn. rewrite Er. eexists; reflexivity.
+      + resp. cbn. rewrite Er. eexists _, _; reflexivity.
       + apply Conc.safe_bind. apply safe_alloc.
-        * intros r seen'. resp. cbn. eauto.
+        * intros r seen'. resp. done.
         * intros r seen'. emit1. exact I.
     - (* detach *) destruct (l_rec lo) as [r|] eqn:Er; [|exact Hskip]. cbn [op_valid negb].
-      emit1. apply Conc.safe_bind. apply safe_free_thread_data. intros seen'. resp. cbn. eauto.
+      opn. apply Conc.safe_bind. apply safe_free_thread_data. intros seen'. resp. done.
     - (* protect *) destruct (l_rec lo) as [r|] eqn:Er; [|exact Hskip].
       destruct (op_valid c (OProtect j k)) eqn:Ev; cbn [negb]; [|exact Hskip].
       pose proof (op_valid_slot _ Ev) as Hj. cbn in Hj.
-      emit1. apply Conc.safe_bind. apply safe_protect; [reflexivity|exact Hj|reflexivity|].
-      intros [p|]; [resp; cbn; rewrite Er; eauto|emit1; exact I].
+      opn. apply Conc.safe_bind.
+      eapply safe_protect; [reflexivity|exact Hj|reflexivity|reflexivity|apply rel_b_same; reflexivity| |].
+      + intros p. eapply safe_emit_protected; [reflexivity|split; reflexivity|]. cbn. rewrite Er. eexists _, _; reflexivity.
+      + intros val'. emit1. exact I.
     - (* assign *) destruct (l_rec lo) as [r|] eqn:Er; [|exact Hskip].
       destruct (op_valid c (OAssign j o)) eqn:Ev; cbn [negb]; [|exact Hskip].
       pose proof (op_valid_slot _ Ev) as Hj. cbn in Hj.
-      emit1. apply Conc.safe_bind.
-      assert (HQ : safe t (Emit [cli "assigned" []] (Ret (Some (set_gv lo j o)))) (base (Some r) 0 seen) op_post)
-        by (resp; cbn; rewrite Er; eauto).
-      destruct (Z.eqb o 0); [apply safe_clear|apply safe_assign]; auto.
+      opn. apply Conc.safe_bind.
+      destruct (Z.eqb o 0); [eapply safe_clear|eapply safe_assign]; try reflexivity; try exact Hj; try (apply rel_b_same; reflexivity);
+        (resp; cbn; rewrite Er; eexists _, _; reflexivity).
     - (* clear *) destruct (l_rec lo) as [r|] eqn:Er; [|exact Hskip].
       destruct (op_valid c (OClear j)) eqn:Ev; cbn [negb]; [|exact Hskip].
       pose proof (op_valid_slot _ Ev) as Hj. cbn in Hj.
-      emit1. apply Conc.safe_bind. apply safe_clear; auto. resp; cbn; rewrite Er; eauto.
+      opn. apply Conc.safe_bind. eapply safe_clear; try reflexivity; try exact Hj; try (apply rel_b_same; reflexivity).
+      resp. cbn. rewrite Er. eexists _, _; reflexivity.
     - (* publish *) destruct (l_rec lo) as [r|] eqn:Er; [|exact Hskip].
       destruct (op_valid c (OPublish k o)) eqn:Ev; cbn [negb]; [|exact Hskip].
-      emit1. act. cbn [a_xchg_src fst snd vZ]. exists a.
-      split; [apply inv_xchg_src; apply inv_acc; [exact HI|discriminate]|]. split; [apply frame_refl|]. rewrite Hv.
+      opn. act. cbn [a_xchg_src fst snd vZ].
+      exists (upd_view a t (with_x (view a t) None (v_val (view a t)))).
+      split; [apply (inv_xchg_src c g a tr t k o HI); rewrite Hv; [reflexivity|split; reflexivity]|].
+      split; [apply frame_upd_view|]. rewrite view_upd_same, Hv. simplv.
       set (old := g_srcs g k). clearbody old. clear g a tr HI Hv.
-      resp. destruct (Z.eqb old 0); [cbn; rewrite Er; eauto|].
-      (* the retire event *)
+      destruct (Z.eqb old 0); [cbn; rewrite Er; eexists _, _; reflexivity|].
       act. exists (set_claims a t (ClPush r old :: v_cl (view a t)) (set_eff (a_eff a) r (Some (r_ret (get_rec g r) ++ [old])))).
       split; [apply inv_emit_retire; [exact HI|now rewrite Hv|now rewrite Hv|rewrite Hv; intros cl []]|]. split; [apply frame_set_claims|].
-      rewrite view_set_claims_same, Hv. cbn [with_cl base v_held v_rec v_clr v_scan v_cl v_seen].
+      rewrite view_set_claims_same, Hv. simplv.
       apply Conc.safe_bind. eapply safe_retire; [reflexivity|reflexivity|reflexivity|intros cl []|].
-      intros seen' _. cbn [with_seen with_cl v_held v_rec v_clr v_scan v_cl v_seen]. resp. cbn. rewrite Er. eexists; reflexivity.
+      intros seen' _. simplv. resp. cbn. rewrite Er. eexists _, _; reflexivity.
     - (* retire *) destruct (l_rec lo) as [r|] eqn:Er; [|exact Hskip]. cbn [op_valid negb].
       destruct ((o <=? 0)%Z || (ARENA <=? o)%Z)%bool; [exact Hskip|].
       act. exists (set_claims a t (ClPush r o :: v_cl (view a t)) (set_eff (a_eff a) r (Some (r_ret (get_rec g r) ++ [o])))).
       split; [apply inv_emit_retire; [exact HI|now rewrite Hv|now rewrite Hv|rewrite Hv; intros cl []]|]. split; [apply frame_set_claims|].
-      rewrite view_set_claims_same, Hv. cbn [with_cl base v_held v_rec v_clr v_scan v_cl v_seen].
+      rewrite view_set_claims_same, Hv. simplv.
       apply Conc.safe_bind. eapply safe_retire; [reflexivity|reflexivity|reflexivity|intros cl []|].
-      intros seen' _. cbn [with_seen with_cl v_held v_rec v_clr v_scan v_cl v_seen]. resp. cbn. rewrite Er. eexists; reflexivity.
+      intros seen' _. simplv. resp. cbn. rewrite Er. eexists _, _; reflexivity.
     - (* scan *) destruct (l_rec lo) as [r|] eqn:Er; [|exact Hskip]. cbn [op_valid negb].
       emit1. apply Conc.safe_bind. apply safe_scan; [reflexivity|reflexivity|intros cl []|].
-      intros seen' _. cbn [with_seen base v_held v_rec v_clr v_scan v_cl v_seen]. resp. cbn. rewrite Er. eexists; reflexivity.
+      intros seen' _. simplv. resp. cbn. rewrite Er. eexists _, _; reflexivity.
     - (* touch *) destruct (l_rec lo) as [r|] eqn:Er; [|exact Hskip].
       destruct (op_valid c (OTouch j)) eqn:Ev; cbn [negb]; [|exact Hskip].
-      resp. cbn. rewrite Er. eexists; reflexivity.
+      resp. cbn. rewrite Er. eexists _, _; reflexivity.
     - (* copy *) destruct (l_rec lo) as [r|] eqn:Er; [|exact Hskip].
       destruct (op_valid c (OCopy j i)) eqn:Ev; cbn [negb]; [|exact Hskip].
       pose proof (op_valid_slot _ Ev) as Hj. cbn in Hj.
-      emit1. apply Conc.safe_bind. apply safe_copy; auto. intros z. resp; cbn; rewrite Er; eauto.
+      opn. apply Conc.safe_bind. eapply safe_copy; try reflexivity; try exact Hj; try (apply rel_b_same; reflexivity).
+      intros z. resp. cbn. rewrite Er. eexists _, _; reflexivity.
   Qed.
 
-  Lemma safe_run_ops t os : forall lo seen, safe t (run_ops c lo os) (base (l_rec lo) 0 seen) (@Conc.QTrue lview).
+  Lemma safe_run_ops t os : forall lo seen val, safe t (run_ops c lo os) (base (l_rec lo) 0 seen None val) (@Conc.QTrue lview).
   Proof.
-    induction os as [|o rest IH]; intros lo seen; cbn [run_ops]; [exact I|].
+    induction os as [|o rest IH]; intros lo seen val; cbn [run_ops]; [exact I|].
     apply Conc.safe_bind. eapply Conc.safe_weaken; [|apply safe_run_op].
-    intros [lo'|] l' Hp; cbn in Hp; [|exact I]. destruct Hp as (seen' & ->). apply IH.
+    intros [lo'|] l' Hp; cbn in Hp; [|exact I]. destruct Hp as (seen' & val' & ->). apply IH.
   Qed.
 
   Lemma safe_thread t os : safe t (thread_prog c os) v0 (@Conc.QTrue lview).
   Proof.
-    unfold thread_prog. act. cbn [a_begin fst snd]. exists a. split; [|split; [apply frame_refl|]].
-    - apply inv_neutral; [exact HI|intros e [<-|[]]; reflexivity|]. intros es' e He _. rewrite Hv. split; reflexivity.
-    - rewrite Hv. apply (safe_run_ops t os local0 []).
+    unfold thread_prog. act. cbn [a_begin fst snd].
+    exists (upd_view a t (with_x (view a t) None (v_val (view a t)))). split; [|split; [apply frame_upd_view|]].
+    - apply inv_emit_close; [exact HI|intros e [<-|[]]; reflexivity|intros e [<-|[]]; reflexivity|].
+      intros es' e He _. rewrite Hv. split; reflexivity.
+    - rewrite view_upd_same, Hv. apply (safe_run_ops t os local0 [] None).
   Qed.
 End Safe.
